@@ -306,7 +306,49 @@ def check_detector(rec, inp):
     return info
 
 
-CHECKS = {"inner": check_inner, "greedy": check_greedy_kernel, "run": check_run, "detector": lambda rec, inp: check_detector(rec, inp)["nt"]}
+def check_long_candidate(rec, inp):
+    """One series long enough for candidates with THOUSANDS of admissible inner intervals (n = 100, min_segment_length 5: 4459 for
+    [0, 100)): every row of the scores table against a vectorised evaluation of the definition for the L2 cost.  inp: {"n", "m", "seed"}."""
+    from skchange.anomaly_detectors import CircularBinarySegmentation
+    from skchange.costs import L2Cost
+    n, m = int(inp["n"]), int(inp["m"])
+    rng = np.random.default_rng(int(inp["seed"]))
+    X = rng.normal(size=(n, 1))
+    X[int(0.72 * n):int(0.97 * n)] += 2.0              # the best inner interval of the long candidates starts late
+    det, err = O.attempt(lambda: CircularBinarySegmentation(anomaly_score=L2Cost(), min_segment_length=m, max_interval_length=n,
+                                                            threshold_scale=2.0).fit(X), seconds=120.0)
+    if err is None:
+        _, err = O.attempt(lambda: det.predict(X), seconds=120.0)
+    if err is not None:
+        rec.violation("CircularBinarySegmentation:long-candidate:raises", f"CircularBinarySegmentation(L2Cost, m={m}, M={n}) on n={n} raised {err!r}", "C09.detector", inp)
+        return True
+    tb = det.scores
+    S = np.concatenate(([0.0], np.cumsum(X[:, 0])))
+    Q = np.concatenate(([0.0], np.cumsum(X[:, 0] ** 2)))
+    a, b = np.meshgrid(np.arange(n + 1), np.arange(n + 1), indexing="ij")
+    for s, e, ra, rb, rs in zip(_ints(tb["interval_start"].to_numpy()), _ints(tb["interval_end"].to_numpy()), tb["argmax_anomaly_start"].to_numpy(),
+                                tb["argmax_anomaly_end"].to_numpy(), tb["score"].to_numpy()):
+        ok = (s < a) & (b < e) & (b - a >= m) & ((a - s) + (e - b) >= m)
+        if not ok.any():
+            continue
+        with np.errstate(all="ignore"):
+            n_in, n_o = (b - a).astype(float), float(e - s)
+            c_o = (Q[e] - Q[s]) - (S[e] - S[s]) ** 2 / n_o
+            c_in = (Q[b] - Q[a]) - (S[b] - S[a]) ** 2 / n_in
+            n_p = n_o - n_in
+            c_p = ((Q[e] - Q[s]) - (Q[b] - Q[a])) - ((S[e] - S[s]) - (S[b] - S[a])) ** 2 / n_p
+            sc = np.where(ok, c_o - c_in - c_p, -np.inf)
+        best = float(sc.max())
+        if not close(float(rs), best) or not (float(ra).is_integer() and float(rb).is_integer() and ok[int(ra), int(rb)] and close(float(sc[int(ra), int(rb)]), best)):
+            ia, ib = np.unravel_index(int(np.argmax(sc)), sc.shape)
+            rec.violation("run_circular_binseg:score:long-candidate", f"CircularBinarySegmentation(L2Cost, m={m}, M={n}) on n={n}: candidate [{s},{e}) reports score "
+                          f"{float(rs)!r} with inner interval ({ra}, {rb}); the maximum of the local anomaly score over its {int(ok.sum())} admissible inner "
+                          f"intervals is {best!r} at ({int(ia)}, {int(ib)})", "C09.table.score", inp)
+            return True
+    return True
+
+
+CHECKS = {"long": lambda rec, inp: check_long_candidate(rec, inp), "inner": check_inner, "greedy": check_greedy_kernel, "run": check_run, "detector": lambda rec, inp: check_detector(rec, inp)["nt"]}
 
 
 def hyper(n, ms, gs, extra_M=(200,)):
@@ -325,6 +367,9 @@ def run(tier="quick", seed=0, repo="/repo"):
     bound = {}
     try:
         _enumerate(rec, tier, seed, bound)
+        inp = {"check": "long", "n": 100, "m": 5, "seed": seed}
+        rec.case(("long", 100, 5), check_long_candidate(rec, inp), None)
+        bound["text"] = bound.get("text", "") + "; one series of n = 100 (min_segment_length 5, candidates with up to 4459 inner intervals, L2 cost) against the vectorised definition"
     except O.Abort:
         bound["text"] = bound.get("text", "") + " [enumeration stopped early: calls into the real code did not terminate]"
     kinds = {}
@@ -428,7 +473,7 @@ def _enumerate(rec, tier, seed, bound_out):
                     for M in sorted({2 * m, n - 1, n, 200}):
                         if M < 2 * m:
                             continue
-                        for g in ([1.5] if quick else [1.1, 1.5, 2.0]):
+                        for g in (([1.5, 2.0] if M % 2 == 0 else [1.5]) if quick else [1.1, 1.5, 2.0]):
                             kind = kinds[(n + m + M + p) % 4]
                             X = O.gen_data(rng, n, p, kind)
                             inp = {"check": "run", "scorer": {"kind": "builtin", "name": name}, "X": X, "m": m, "M": M, "g": g,
@@ -450,7 +495,7 @@ def _enumerate(rec, tier, seed, bound_out):
                     for M in sorted({2 * m, n, n + 1, 200} if quick else {2 * m, 2 * m + 1, n - 1, n, n + 1, 200}):
                         if M < 2 * m:
                             continue
-                        for g in ([1.5] if quick else [1.1, 1.5, 2.0]):
+                        for g in (([1.5, 2.0] if M % 2 == 0 else [1.5]) if quick else [1.1, 1.5, 2.0]):
                             kind = kinds[(n + m + M) % 4]
                             X = O.gen_data(rng, n, p, kind)
                             base = {"check": "detector", "scorer": spec, "X": X, "m": m, "M": M, "g": g}
